@@ -1,4 +1,7 @@
 import Blue.Model.FileRefs
+import Blue.Model.Verifier
+import Blue.Model.Orphans
+import Blue.Model.FileLink
 import Blue.Driver.Util
 /-! Driver verb for the version-reference / trash model (instance `refs`, properties C08, C07):
 
@@ -40,5 +43,169 @@ def handle : List String → String
     | some es => " | ".intercalate (runEvents (init (names v0)) es)
     | none => "bad-op"
   | _ => "bad-op"
+
+
+/-! Verbs for the verifier model (`Blue.Verifier`, instance `vfy`) and the orphan clean-up model
+    (`Blue.Orphans`, instance `orph`).
+
+    directory ::= `sst=`<names> `trash=`<names> `vM=`<n|-> `vO=`<token> `vstrs=`<names>
+                  `frags=`<n>`:`<edits>{`|`<n>`:`<edits>} `live=`<edits>
+    names     ::= `-` | name{`+`name}           edits ::= `-` | edit{`;`edit}
+    edit      ::= `.` | item{`,`item}           item  ::= `-`name | `+`name | <key char><value>
+
+    * `vfy pass <directory>`      status of one `LsmVerifier::verify` and what it changed
+    * `vfy trace <directory>`     the durable actions of the pass, in order
+    * `vfy prefixes <directory>`  the directory after every prefix of those actions (the crash states)
+    * `orph sst=… trash=… frags=<edits>{|<edits>}`   what `cleanup_orphans` renames to `trash/` -/
+namespace Vfy
+open Blue.Mani Blue.Verifier
+
+def ascii (s : String) : List Nat := s.toList.map Char.toNat
+def str (l : List Nat) : String := String.ofList (l.map Char.ofNat)
+def nameList (s : String) : List (List Nat) := (names s).map ascii
+def renderNames (l : List (List Nat)) : String := sorted (l.map str)
+
+def parseItem (e : Edit) (t : String) : Option Edit :=
+  match t.toList with
+  | '-' :: r => if r.isEmpty then none else some { e with rm := e.rm ++ [r.map Char.toNat] }
+  | '+' :: r => if r.isEmpty then none else some { e with add := e.add ++ [r.map Char.toNat] }
+  | k :: r => some { e with info := e.info ++ [(k.toNat, r.map Char.toNat)] }
+  | [] => none
+
+def parseItems : List String → Edit → Option Edit
+  | [], e => some e
+  | t :: ts, e => match parseItem e t with
+    | some e' => parseItems ts e'
+    | none => none
+
+def parseEdit (s : String) : Option Edit :=
+  if s = "." then some Edit.empty else parseItems (s.splitOn ",") Edit.empty
+
+def parseEdits (s : String) : Option (List Edit) :=
+  if s = "-" then some [] else allSome ((s.splitOn ";").map parseEdit)
+
+def parseFrag (s : String) : Option (Nat × List Edit) :=
+  match s.splitOn ":" with
+  | [n, es] => match n.toNat?, parseEdits es with
+    | some n, some es => some (n, es)
+    | _, _ => none
+  | _ => none
+
+def parseFrags (s : String) : Option (List (Nat × List Edit)) :=
+  if s = "-" then some [] else allSome ((s.splitOn "|").map parseFrag)
+
+def field (key : String) : List String → Option String
+  | [] => none
+  | t :: ts => if t.startsWith (key ++ "=") then some (t.drop (key.length + 1)).toString else field key ts
+
+def parseDir (toks : List String) : Option (Dir Name) :=
+  match field "sst" toks, field "trash" toks, field "vM" toks, field "vO" toks, field "vstrs" toks,
+        field "frags" toks, field "live" toks with
+  | some sst, some trash, some vm, some vo, some vstrs, some frags, some live =>
+    match parseFrags frags, parseEdits live, (if vm = "-" then some none else vm.toNat?.map some) with
+    | some fr, some lv, some m =>
+      some { sst := nameList sst, trash := nameList trash, frags := fr, live := lv,
+             vstrs := (nameList vstrs).foldl (fun acc x => insertStr x acc) [], vM := m, vO := ascii vo, done := [] }
+    | _, _, _ => none
+  | _, _, _, _, _, _, _ => none
+
+def renderStatus : Status → String
+  | .ok => "ok"
+  | .backoff x => "backoff:" ++ str x
+  | .corrupt => "corrupt"
+  | .panic => "panic"
+
+def renderNums (l : List Nat) : String := if l.isEmpty then "-" else "+".intercalate (l.map toString)
+
+def renderV (d : Dir Name) : String :=
+  s!"vM={match d.vM with | some m => toString m | none => "-"} vO={str d.vO} vstrs={renderNames d.vstrs}"
+
+def renderAct : Act Name → String
+  | .unlinkFrag n => s!"F{n}"
+  | .unlinkTrash x => "T" ++ str x
+  | .clear => "C"
+  | .intent n _ names _ => s!"I{n}:{renderNames names}"
+
+def renderState (d : Dir Name) : String :=
+  s!"sst={renderNames d.sst} trash={renderNames d.trash} frags={renderNums (d.frags.map (·.1))} {renderV d}"
+
+def prefixStates (d : Dir Name) : List (Act Name) → List String
+  | [] => [renderState d]
+  | a :: as => renderState d :: prefixStates (d.apply a) as
+
+/-- consecutive equal states are one crash state (the edit that clears an empty log changes nothing) -/
+def dedupAdj : List String → List String
+  | a :: b :: t => if a = b then dedupAdj (b :: t) else a :: dedupAdj (b :: t)
+  | l => l
+
+def handleVfy : List String → String
+  | "pass" :: toks =>
+    match parseDir toks with
+    | none => "bad-op"
+    | some d =>
+      let r := pass chainChecker d
+      let d' := run d r.1
+      let goneT := d.trash.filter (fun x => !d'.trash.contains x)
+      let goneF := (d.frags.map (·.1)).filter (fun n => !(d'.frags.map (·.1)).contains n)
+      let sstSame := if d'.sst = d.sst then "same" else "changed"
+      s!"st={renderStatus r.2} sst={sstSame} trash-={renderNames goneT} frags-={renderNums goneF} {renderV d'}"
+  | "trace" :: toks =>
+    match parseDir toks with
+    | none => "bad-op"
+    | some d =>
+      let r := pass chainChecker d
+      s!"st={renderStatus r.2} acts={if r.1.isEmpty then "-" else ",".intercalate (r.1.map renderAct)}"
+  | "prefixes" :: toks =>
+    match parseDir toks with
+    | none => "bad-op"
+    | some d => " | ".intercalate (dedupAdj (prefixStates d (pass chainChecker d).1))
+  | _ => "bad-op"
+
+def parseFragList (s : String) : Option (List (List Edit)) :=
+  if s = "-" then some [] else allSome ((s.splitOn "|").map parseEdits)
+
+def handleOrph (toks : List String) : String :=
+  match field "sst" toks, field "trash" toks, field "frags" toks with
+  | some sst, some trash, some frags =>
+    match parseFragList frags with
+    | some fr => s!"moved={renderNames (Blue.Orphans.moved (nameList sst) (nameList trash) fr)} listed={renderNames (Blue.Orphans.listed fr)}"
+    | none => "bad-op"
+  | _, _, _ => "bad-op"
+
+end Vfy
+
+/-! `flink <asis|pin> refs=<name>:<n>{,<name>:<n>} sst=<names> trash=<names> :: <event>*` with events
+    `L:<x>` (link an output), `R:<x>` (a version being installed takes its reference), `U:<x>` (a
+    holder lets go): `sst/` and `trash/` afterwards (`Blue.FileLink`). -/
+namespace Flink
+open Blue.FileLink
+
+def parseRefs (s : String) : Option (List (String × Nat)) :=
+  if s = "-" then some [] else
+  allSome ((s.splitOn ",").map fun t => match t.splitOn ":" with
+    | [n, k] => k.toNat?.map fun k => (n, k)
+    | _ => none)
+
+def parseEv (t : String) : Option (Blue.FileLink.Ev String) :=
+  if t.startsWith "L:" then some (.link (t.drop 2).toString)
+  else if t.startsWith "R:" then some (.ref (t.drop 2).toString)
+  else if t.startsWith "U:" then some (.unref (t.drop 2).toString)
+  else none
+
+def handle : List String → String
+  | proto :: r :: sst :: trash :: "::" :: evs =>
+    let pin? := if proto = "pin" then some true else if proto = "asis" then some false else none
+    match pin?, Vfy.field "refs" [r], Vfy.field "sst" [sst], Vfy.field "trash" [trash], allSome (evs.map parseEv) with
+    | some pin, some r, some sst, some trash, some es =>
+      match parseRefs r with
+      | some rs =>
+        let s0 : Blue.FileLink.St String := { refs := fun x => ((rs.find? (·.1 == x)).map (·.2)).getD 0, sst := names sst, trash := names trash }
+        let s := Blue.FileLink.run pin s0 es
+        s!"sst={sorted s.sst} trash={sorted s.trash}"
+      | none => "bad-op"
+    | _, _, _, _, _ => "bad-op"
+  | _ => "bad-op"
+
+end Flink
 
 end Blue.Driver.C08
